@@ -384,7 +384,7 @@ def c06(res):
 
 @check("C07")
 def c07(res):
-    return generic(res, "C07", "Properties/C07.v", [ATTRS("general"), SAN(40, 40), LOOP], "C07",
+    return generic(res, "C07", "Properties/C07.v", [ATTRS("general"), SAN(40, 40), LOOP, ("corr-style", ["style"])], "C07",
                    "the rule lookups of sanitizeAttrs and the write-back of kept tokens", RULE_ATTRS +
                    "; oracle: canonical serialisations of random trees in the policy's own vocabulary must come back byte for byte, also after further rule-adding builder calls",
                    thorough_runs=[ATTRS_T("general"), SAN(200, 80), LOOP_T])
@@ -438,14 +438,16 @@ def c13(res):
     broken_tooling(res, st, "nothing generated")
     ok, out = V.prove(res, "Properties/C13.v")
     thorough = res.tier == "thorough"
-    rc, out2, dt = V.run([race, "c13", "-seed", str(res.seed)] + (["-policies", "60", "-docs", "120"] if thorough else []), env=dict(V.GOENV, GORACE="halt_on_error=1 exitcode=66"), timeout=1500)
+    rc, out2, dt = V.run([race, "c13", "-seed", str(res.seed)] + (["-policies", "60", "-docs", "120"] if thorough else []), env=dict(V.GOENV, GORACE="halt_on_error=1 exitcode=66", GOMEMLIMIT="3GiB"), timeout=1500 if thorough else 240)
     lines = [l for l in out2.split("\n") if l.startswith("{")]
     res.coverage["rule"] = ("theorems: rule order irrelevant, no dependence on earlier calls (the model is a function); validation (not proof): race-detector build, 16 goroutines sharing each "
                             "finished policy over generated documents compared with sequential results, repeated sequential passes, freshly built equal policies (map order), policy dump before/after")
     if "DATA RACE" in out2 or rc == 66:
         res.violation({"kind": "data-race", "clause": "the race detector reported a data race while goroutines shared a finished policy", "race_log": out2[-6000:]}, found=True)
     elif rc != 0 or not lines:
-        raise Broken("race harness failed rc=%s:\n%s" % (rc, out2[-2000:]))
+        # a crash (e.g. fatal error: concurrent map writes), a kill for memory or a stall of the stress run
+        res.violation({"kind": "stress-run-crashed", "clause": "the concurrent stress run on a shared finished policy crashed, was killed or did not finish (rc=%s)" % rc,
+                       "log": out2[-6000:]}, found=True)
     if lines:
         s = json.loads(lines[-1])
         merge_cov(res, s, "race-stress")
